@@ -25,7 +25,7 @@ VARIANTS = {
     "asan": dict(cxx="clang++",
                  flags=["-std=gnu++17", "-O1", "-g", "-fPIC", "-w", "-fno-omit-frame-pointer",
                         "-fsanitize=fuzzer-no-link,address,undefined",
-                        "-fno-sanitize-recover=undefined"],
+                        "-fsanitize-recover=undefined"],
                  ldflags=["-fsanitize=address,undefined"]),
     "tsan": dict(cxx="clang++",
                  flags=["-std=gnu++17", "-O1", "-g", "-fPIC", "-w", "-fsanitize=thread"],
